@@ -26,7 +26,7 @@ PROPS["C02"] = dict(
     assumptions=["planted class is correct by construction (gen_lp.hpp)", "oracle tolerances: 1e-9/1e-7 relative after max-norm normalisation"],
     min_nontrivial=dict(quick=500, thorough=20000),
     stages=[dict(name="planted", target="solve", x=dict(prop="C02"),
-                 quick=dict(cases=250, maxsize=70), thorough=dict(cases=15000, maxsize=100))],
+                 quick=dict(cases=3000, maxsize=80), thorough=dict(cases=150000, maxsize=100))],
 )
 
 
@@ -35,3 +35,17 @@ import glob as _glob
 import os as _os
 for _f in sorted(_glob.glob(_os.path.join(_os.path.dirname(_os.path.abspath(__file__)), "props.d", "*.py"))):
     exec(compile(open(_f).read(), _f, "exec"), {"PROPS": PROPS})
+
+PROPS["C08"] = dict(
+    level="exploration",
+    rule=("presolve-structure-rich planted LPs (all four classes; empty/singleton/duplicate/parallel/dependent rows and "
+          "columns, doubleton equations, fixed and free columns, optional power-of-two factors) x keep-bounds x seed x "
+          "min-reduction; SPxMainSM is driven directly. Verdicts judged against the planted class (z3 adjudicates "
+          "ill-posed instances), the reduced LP + offset against the planted class/optimum by z3 (exact, after an outward "
+          "1e-9 relaxation), postsolve of up to 3 optimal vertices of the reduced LP by the exact certificate oracle on the "
+          "ORIGINAL LP plus basis validity. non-trivial = m,n >= 2 and >= 2 rows/columns removed; distinct = case text."),
+    assumptions=["z3 5.1.0 (library of the tooling venv) decides small rational LPs correctly",
+                 "the reduced LP is solved by SoPlex without simplifier/scaler and its answer is itself certified before it is fed to postsolve"],
+    min_nontrivial=dict(quick=3000, thorough=100000),
+    stages=[dict(name="mainsm", target="c08", quick=dict(cases=4000, maxsize=80), thorough=dict(cases=40000, maxsize=100))],
+)
